@@ -15,7 +15,7 @@ def selftest(ctx):
     ev = {"texts": tr["texts"], "steps": tr["steps"]}
     good, _ = tlc.validate_sharded("TracePobj", "TracePobj.cfg", [dict(ev)], ctx.work)
     import copy
-    bad = copy.deepcopy(ev); bad["steps"][2]["res"] = bad["texts"][1]["fp"]
+    bad = copy.deepcopy(ev); bad["steps"][2]["res"] = bad["texts"][1]["fp"][0]
     rej, _ = tlc.validate_sharded("TracePobj", "TracePobj.cfg", [bad], ctx.work)
     print("C12 selftest: clean accepted=%s; corrupted step rejected with %s" % (good == {}, rej.get(1)))
     return 0 if good == {} and rej.get(1) else 2
